@@ -107,6 +107,7 @@ add_destructor = Unit(
 )
 add_destructor.ghost_params = ["pos"]
 add_destructor.global_callees["wformat"] = VFun("wformat[trusted contract]", _wformat)
+add_destructor.pure_callees = ["wformat"]     # formats, never writes into the format scope
 
 INTENT_BLK = ("obj", "Scope0", {"destructor_name": "py", "owner": "py"})
 AST = ("obj", "Declaration", {"attrs": "ddict[py]", "is_pointer()": "int"})
